@@ -370,3 +370,50 @@ Example C01vm_constructs_nonvacuous :
                                    ([], Some (c01vm2.Den.XErr (c01vm2.Syntax.EMsg [])))) /\
   obs q3 v3 = (Some (r3, c01vm2.VM.End), (r3, None)).
 Proof. vm_compute. repeat split; reflexivity. Qed.
+
+(* destructuring patterns in reduce / foreach (QReduce / QForeach carry a pattern; `$x` is PVar x), on the FINAL code
+   and on den:
+     reduce .[] as [$a,$b] (0; . + $a + $b)           on [[1,2],[3,4]] -> 10;   on [[1,2],5]: the pattern's error, no output
+     foreach .[] as {a:$v} (0; . + $v; [$v, .])       on [{"a":1},{"a":2}] -> [1,1], [2,3]
+     try (the same foreach) catch 9                   on [{"a":1},2,{"a":2}] -> [1,1], 9   (the error is raised inside the fold) *)
+Example C01vm_fold_patterns_nonvacuous :
+  let num z := c01vm2.Syntax.QConst (c01vm2.Syntax.VNum z) in
+  let var x := c01vm2.Syntax.QVar x in
+  let obs q v := (option_map (fun c => c01vm2.VM.run c01vm2.Natives.cnat c 5000 (c01vm2.VM.init c v)) (c01vm2.Compile.compile q),
+                  c01vm2.Den.den c01vm2.Natives.cnat 10 q [] v) in
+  let add a b := c01vm2.Syntax.QBinop c01vm2.Syntax.OAdd a b in
+  let it := c01vm2.Syntax.QIter c01vm2.Syntax.QId in
+  let pab := c01vm2.Syntax.PArr (c01vm2.Syntax.ACons (c01vm2.Syntax.PVar 1%N) (c01vm2.Syntax.ACons (c01vm2.Syntax.PVar 2%N) c01vm2.Syntax.ANil)) in
+  let pv := c01vm2.Syntax.PObj (c01vm2.Syntax.OKey [97%N] (c01vm2.Syntax.PVar 1%N) c01vm2.Syntax.ONil) in
+  let q1 := c01vm2.Syntax.QReduce it pab (num 0%Z) (add (add c01vm2.Syntax.QId (var 1%N)) (var 2%N)) in
+  let q2 := c01vm2.Syntax.QForeach it pv (num 0%Z) (add c01vm2.Syntax.QId (var 1%N))
+              (Some (c01vm2.Syntax.QArray (c01vm2.Syntax.QComma (var 1%N) c01vm2.Syntax.QId))) in
+  let n z := c01vm2.Syntax.VNum z in
+  let arr l := c01vm2.Syntax.VArr l in
+  let oa z := c01vm2.Syntax.VObj [([97%N], n z)] in
+  let emsg := (c01vm2.VM.Error (c01vm2.VM.VE (c01vm2.VM.EM [])), Some (c01vm2.Den.XErr (c01vm2.Syntax.EMsg []))) in
+  obs q1 (arr [arr [n 1; n 2]; arr [n 3; n 4]])%Z = (Some ([n 10%Z], c01vm2.VM.End), ([n 10%Z], None)) /\
+  obs q1 (arr [arr [n 1; n 2]; n 5])%Z = (Some ([], fst emsg), ([], snd emsg)) /\
+  obs q2 (arr [oa 1; oa 2])%Z = (Some ([arr [n 1; n 1]; arr [n 2; n 3]]%Z, c01vm2.VM.End), ([arr [n 1; n 1]; arr [n 2; n 3]]%Z, None)) /\
+  obs (c01vm2.Syntax.QTry q2 (Some (num 9%Z))) (arr [oa 1; n 2; oa 2])%Z =
+    (Some ([arr [n 1; n 1]; n 9]%Z, c01vm2.VM.End), ([arr [n 1; n 1]; n 9]%Z, None)).
+Proof. vm_compute. repeat split; reflexivity. Qed.
+
+(* a native with one argument (QCall1: error(a)), on the FINAL code and on den:
+     try error(. + 1) catch .     on 5 -> 6          (the payload is the output of the argument)
+     error("x")                   on 5: the uncaught ValueError "x", no output
+     [error((1,2))?]              on 5 -> []         (the first output of the argument raises) *)
+Example C01vm_call1_nonvacuous :
+  let num z := c01vm2.Syntax.QConst (c01vm2.Syntax.VNum z) in
+  let obs q v := (option_map (fun c => c01vm2.VM.run c01vm2.Natives.cnat c 5000 (c01vm2.VM.init c v)) (c01vm2.Compile.compile q),
+                  c01vm2.Den.den c01vm2.Natives.cnat 10 q [] v) in
+  let err a := c01vm2.Syntax.QCall1 c01vm2.Syntax.F1Error a in
+  let q1 := c01vm2.Syntax.QTry (err (c01vm2.Syntax.QBinop c01vm2.Syntax.OAdd c01vm2.Syntax.QId (num 1%Z))) (Some c01vm2.Syntax.QId) in
+  let q2 := err (c01vm2.Syntax.QConst (c01vm2.Syntax.VStr [120%N])) in
+  let q3 := c01vm2.Syntax.QArray (c01vm2.Syntax.QTry (err (c01vm2.Syntax.QComma (num 1%Z) (num 2%Z))) None) in
+  let n z := c01vm2.Syntax.VNum z in
+  obs q1 (n 5%Z) = (Some ([n 6%Z], c01vm2.VM.End), ([n 6%Z], None)) /\
+  obs q2 (n 5%Z) = (Some ([], c01vm2.VM.Error (c01vm2.VM.VE (c01vm2.VM.EV (c01vm2.Syntax.VStr [120%N])))),
+                    ([], Some (c01vm2.Den.XErr (c01vm2.Syntax.EVal (c01vm2.Syntax.VStr [120%N]))))) /\
+  obs q3 (n 5%Z) = (Some ([c01vm2.Syntax.VArr []], c01vm2.VM.End), ([c01vm2.Syntax.VArr []], None)).
+Proof. vm_compute. repeat split; reflexivity. Qed.
